@@ -225,7 +225,7 @@ func suiteC01(c *ctx) {
 func tailCases(r *Rng, prop string, n int) []*WCase {
 	var out []*WCase
 	sets := []Setting{{API: "flate", Level: 2}, {API: "flate", Level: -1}, {API: "flate", Level: 1}, {API: "flate", Level: 2, Win4K: true},
-		{API: "flate", Level: 1, Win4K: true}, {API: "gzip", Level: -1}, {API: "zlib", Level: 2}}
+		{API: "flate", Level: 1, Win4K: true}, {API: "flate", Level: -1, Win4K: true}, {API: "flate", Level: 2}}
 	for i := 0; i < n; i++ {
 		s := sets[i%len(sets)]
 		m := r.Range(40, 400)
